@@ -23,8 +23,63 @@ thread_local! {
     static TRACK: Cell<bool> = const { Cell::new(false) };
 }
 
+/// A single request of this size made while a library call is being tracked is far beyond the
+/// C11 bound for every input this harness builds (inputs are < 1 MiB, the bound is
+/// 16·len + 64 KiB). It cannot be served, and an allocation failure aborts the process, so the
+/// request is written to stderr first (without allocating) for the check driver to turn into a
+/// violation with the input attached.
+const HUGE: usize = 1 << 30;
+
+fn refuse_huge(size: usize) -> bool {
+    if size < HUGE || !TRACK.try_with(|t| t.get()).unwrap_or(false) {
+        return false;
+    }
+    use std::io::Write;
+    use std::os::fd::FromRawFd;
+    let mut buf = [0u8; 1400];
+    let mut n = 0;
+    let mut put = |b: &[u8]| {
+        for &c in b {
+            if n < buf.len() {
+                buf[n] = c;
+                n += 1;
+            }
+        }
+    };
+    put(b"\nPROTOMON-HUGE-ALLOC size=");
+    let mut digits = [0u8; 20];
+    let (mut v, mut k) = (size, 20);
+    loop {
+        k -= 1;
+        digits[k] = b'0' + (v % 10) as u8;
+        v /= 10;
+        if v == 0 {
+            break;
+        }
+    }
+    put(&digits[k..]);
+    let shard = crate::SHARD.try_with(|s| s.get()).unwrap_or(0);
+    if let Ok(g) = crate::CURRENT[shard].try_lock() {
+        if let Some((what, input)) = g.as_ref() {
+            put(b" what=");
+            put(what.as_bytes());
+            put(b" input_hex=");
+            for &b in input.iter().take(600) {
+                put(&[b"0123456789abcdef"[(b >> 4) as usize], b"0123456789abcdef"[(b & 15) as usize]]);
+            }
+        }
+    }
+    put(b" END\n");
+    let mut f = std::mem::ManuallyDrop::new(unsafe { std::fs::File::from_raw_fd(2) });
+    let _ = f.write_all(&buf[..n]);
+    true
+}
+
 unsafe impl GlobalAlloc for CountingAlloc {
     unsafe fn alloc(&self, layout: Layout) -> *mut u8 {
+        if refuse_huge(layout.size()) {
+            return std::ptr::null_mut();
+        }
         let p = unsafe { System.alloc(layout) };
         if !p.is_null() {
             note_alloc(layout.size());
@@ -36,6 +91,9 @@ unsafe impl GlobalAlloc for CountingAlloc {
         note_free(layout.size());
     }
     unsafe fn alloc_zeroed(&self, layout: Layout) -> *mut u8 {
+        if refuse_huge(layout.size()) {
+            return std::ptr::null_mut();
+        }
         let p = unsafe { System.alloc_zeroed(layout) };
         if !p.is_null() {
             note_alloc(layout.size());
@@ -43,6 +101,9 @@ unsafe impl GlobalAlloc for CountingAlloc {
         p
     }
     unsafe fn realloc(&self, ptr: *mut u8, layout: Layout, new_size: usize) -> *mut u8 {
+        if refuse_huge(new_size) {
+            return std::ptr::null_mut();
+        }
         let p = unsafe { System.realloc(ptr, layout, new_size) };
         if !p.is_null() {
             note_free(layout.size());
